@@ -1,6 +1,100 @@
 package main
 
+// Known-finding regions (DESIGN.md §5): a recorded finding names an obligation and a predicate ("region") over the
+// function's inputs and pre-state that characterises the recorded failure. For such an obligation the check
+//   - proves the obligation on the complement of all listed regions (any other way to violate the clause is a VIOLATION),
+//   - asks whether the obligation still fails inside each region; if so it prints the KNOWN-FINDING line, if the solver
+//     proves it inside the region as well (the defect was repaired) nothing is printed.
+
+import (
+	"os"
+	"os/exec"
+	"path/filepath"
+	"strings"
+)
+
+type regionTerm struct {
+	ID   string
+	What string
+	Term string
+}
+
+func stripProp(name string) string {
+	if i := strings.Index(name, "."); i >= 0 {
+		return name[i+1:]
+	}
+	return name
+}
+
+// prepareRegions evaluates the regions of the findings recorded for the function under verification in its entry state.
+func (x *Exec) prepareRegions(env *cenv) {
+	x.regions = map[string][]regionTerm{}
+	for _, kf := range loadKnown().Findings {
+		ob := stripProp(kf.Obligation)
+		if !strings.HasPrefix(ob, x.topShort()+".") {
+			continue
+		}
+		node, err := ParseSpec(kf.Region)
+		if err != nil {
+			x.fail("known finding %s: region does not parse: %v", kf.ID, err)
+			return
+		}
+		sv, err := EvalSpec(node, env, x.sigs, x.topLets)
+		if err != nil {
+			x.fail("known finding %s: region cannot be evaluated on the current source: %v", kf.ID, err)
+			return
+		}
+		x.regions[ob] = append(x.regions[ob], regionTerm{ID: kf.ID, What: kf.What, Term: sv.T})
+	}
+}
+
+// splitRegions rewrites the obligations that have recorded regions.
+func (x *Exec) splitRegions() {
+	if len(x.regions) == 0 {
+		return
+	}
+	var extra []*Obligation
+	for _, o := range x.obls {
+		if o.Kind == "vacuity" || o.Result != "" {
+			continue
+		}
+		base := stripProp(o.Name)
+		if i := strings.Index(base, "@"); i >= 0 {
+			base = base[:i]
+		}
+		rs, ok := x.regions[base]
+		if !ok {
+			continue
+		}
+		for _, r := range rs {
+			in := *o
+			in.Kind = "known"
+			in.Name = o.Name + "#inside:" + r.ID
+			in.Assume = append(append([]string(nil), o.Assume...), r.Term)
+			in.Region = r.ID + " " + r.What
+			extra = append(extra, &in)
+		}
+		for _, r := range rs {
+			o.Assume = append(o.Assume, not(r.Term))
+		}
+		o.Clause += "   [outside the recorded known-finding region(s)]"
+	}
+	x.obls = append(x.obls, extra...)
+}
+
 func applyRegions(s *Session, prop string, reps []*FuncReport, known KnownFile) {}
+
+// replayKnown runs the stored demonstration of a recorded finding on the real code (go test -overlay, nothing is written
+// to the repository). The demonstrations assert the property, so they FAIL while the defect is present.
+func replayKnown(kf KnownFinding) (present bool, out string) {
+	if kf.Replay == "" || kf.ReplayPkg == "" {
+		return false, "no stored demonstration"
+	}
+	cmd := exec.Command("sh", filepath.Join(verifDir, "replay", "run_overlay.sh"), kf.ReplayPkg, filepath.Join(verifDir, kf.Replay), kf.ReplayRun, repoDir)
+	cmd.Env = append(os.Environ(), "GOFLAGS=", "GOPROXY=off", "GOSUMDB=off", "GOTOOLCHAIN=local")
+	b, err := cmd.CombinedOutput()
+	return err != nil && strings.Contains(string(b), "--- FAIL"), trunc(string(b), 3000)
+}
 
 func tryReplay(s *Session, prop string, g *OblGroup, fo *Obligation) (bool, map[string]interface{}) {
 	return false, map[string]interface{}{"status": "no replay driver for this obligation kind yet"}
